@@ -27,6 +27,12 @@ type c08exp struct {
 	want ref.Status
 }
 
+type c08mono struct {
+	lang int
+	op   *plan.Op
+	res  *plan.Res
+}
+
 type c08wrong struct {
 	accept, neighbour int
 	op                *plan.Op
@@ -46,6 +52,7 @@ func checkC08(e *Env) {
 	smp := newSamples(6)
 	dist := newDistinct()
 	wrongByWord := map[[2]int]*c08wrong{}
+	monoRejected := map[int][]c08mono{} // index -> languages whose one-word sentence was rejected
 
 	stats := e.RunStream(StreamOpts{Drv: drv}, func(emit func(*Item)) {
 		for lang := 0; lang < ref.NLang; lang++ {
@@ -66,6 +73,18 @@ func checkC08(e *Env) {
 				long[22] = i
 				ent2 := entropyFromIndices(32, long, r.Intn(8))
 				emit(&Item{Op: plan.Op{Fn: "enc", L: int64(lang), E: hx(ent2)}, Exp: c08exp{kind: "penultimate", lang: lang, idx: i, ent: ent2}})
+				// a sentence made of word i alone (23 times, then the word the checksum asks
+				// for): whatever validation does with it can only be about this word
+				mono := make([]int, 23)
+				for j := range mono {
+					mono[j] = i
+				}
+				midx := ref.Indices(entropyFromIndices(32, mono, 0))
+				mw := make([]string, len(midx))
+				for j, v := range midx {
+					mw[j] = e.Model.List[lang][v]
+				}
+				emit(&Item{Op: plan.Op{Fn: "chk", L: int64(lang), S: hxs(strings.Join(mw, " "))}, Exp: c08exp{kind: "mono", lang: lang, idx: i, want: ref.OK}})
 				// inverse direction: four reference sentences containing word i must be
 				// accepted; with word i replaced by its list neighbour the verdict must be
 				// the reference decoder's
@@ -127,6 +146,20 @@ func checkC08(e *Env) {
 			if x.idx%500 == 3 {
 				smp.Add(map[string]any{"language": ref.Names[x.lang], "index": x.idx, "emitted": w, "emitted_hex": hxs(w), "position": pos})
 			}
+		case "mono":
+			if r.Err != nil && errClassOf(r.Err) == "other" {
+				e.Violate(&Violation{What: fmt.Sprintf("%s list: the valid sentence made of word %d (%s) 23 times and its checksum word is rejected with %q: validation does not know a list word", ref.Names[x.lang], x.idx, preview(golden), errText(r.Err)),
+					Ops: []plan.Op{it.Op}, Expected: ref.OK.String(), Observed: r})
+				return
+			}
+			mu.Lock()
+			verdicts[x.lang]++
+			if r.Err != nil {
+				wrongVerdicts[x.lang]++
+				op, rr := it.Op, *r
+				monoRejected[x.idx] = append(monoRejected[x.idx], c08mono{lang: x.lang, op: &op, res: &rr})
+			}
+			mu.Unlock()
 		case "accept", "neighbour":
 			accepted := r.Err == nil
 			mu.Lock()
@@ -256,6 +289,23 @@ func checkC08(e *Env) {
 			unexplained += wv.accept + wv.neighbour
 		}
 	}
+	// One-word sentences: all ten languages encode the same entropy for index i, so a rejection
+	// in every language is about the entropy (C02's business); a rejection in some languages
+	// only is about those languages' word.
+	for idx, rej := range monoRejected {
+		if len(rej) == ref.NLang {
+			unexplained += len(rej)
+			continue
+		}
+		for _, m := range rej {
+			if s := e.Solo(drv, *m.op); failure(s) == "" && s.Err == nil {
+				unexplained++ // accepted when validated alone: an effect of earlier calls (C13), not of the word
+				continue
+			}
+			e.Violate(&Violation{What: fmt.Sprintf("%s list: the valid sentence made of word %d (%s) 23 times and its checksum word is rejected with %q, while the sentence of the same indices is accepted under %d other languages: validation does not map this word back to index %d in every sentence", ref.Names[m.lang], idx, preview(e.Model.List[m.lang][idx]), errText(m.res.Err), ref.NLang-len(rej), idx),
+				Ops: []plan.Op{*m.op}, Expected: ref.OK.String(), Observed: m.res})
+		}
+	}
 	// well-formedness of what the API emitted
 	py := e.Py()
 	complete := 0
@@ -329,7 +379,7 @@ func checkC08(e *Env) {
 		"evaluations":                       stats.Ops,
 		"distinct_nontrivial":               dist.Len(),
 		"calls_repeated_under_concurrency":  concCalls,
-		"rule":                              "finite domain enumerated completely: for each of the 10 languages and each index 0..2047, the word the API emits at the first position of a 12-word sentence and at the last-but-one position of a 24-word sentence is compared byte-for-byte with the golden list; the 2048 emitted words per language are checked for distinctness, non-emptiness, absence of Unicode white space and NFKD stability (CPython); for each word four 24-word reference sentences containing it must be accepted and the same sentences with the word replaced by its list neighbour must get the reference decoder's verdict; per language the enumeration is repeated in a process that first went through 120 failed validations (typo'd tokens resembling list words); the source files under internal/wordlist are parsed and compared literal by literal; non-trivial = every (language, index); distinct = (language, index) pairs observed through the API",
+		"rule":                              "finite domain enumerated completely: for each of the 10 languages and each index 0..2047, the word the API emits at the first position of a 12-word sentence and at the last-but-one position of a 24-word sentence is compared byte-for-byte with the golden list; the 2048 emitted words per language are checked for distinctness, non-emptiness, absence of Unicode white space and NFKD stability (CPython); for each word the 24-word sentence made of that word alone plus its checksum word must be accepted (a rejection shared by all ten languages is about the entropy, not the word), four 24-word reference sentences containing it must be accepted (a word is blamed when at least three of the four fail) and the same sentences with the word replaced by its list neighbour must get the reference decoder's verdict; per language the enumeration is repeated in a process that first went through 120 failed validations (typo'd tokens resembling list words); the source files under internal/wordlist are parsed and compared literal by literal; non-trivial = every (language, index); distinct = (language, index) pairs observed through the API",
 		"samples":                           smp.List(),
 		"exhaustive":                        true,
 		"list_entries_observed_through_api": complete,
